@@ -4,7 +4,7 @@ import BiotiteModel.Model.C14
 All real numbers travel as integers `k` meaning `k / 2^S` (`S` given by `new`).
 
 ```
-new S cs box sel coords      box: `-` | Lx,Ly,Lz   sel: `-` | bit string | `_`   coords: x,y,z,x,y,z,... | `_`
+new S cs box sel coords      box: `-` | Lx,Ly,Lz | 9 ints (rows = box vectors, signed permutation of an orthorhombic box)   sel: `-` | bit string | `_`   coords: x,y,z,x,y,z,... | `_`
 atoms mode shape qs rad      mode: idx|mask  shape: s|m  rad: s:K | m:K,K,...
 cells mode shape qs rad      rad: s:C | m:C,C,...   (cell radii, plain integers)
 adj thr
@@ -71,10 +71,26 @@ def parseSel (s : String) : Option (Option (List Bool)) :=
   else if s == "_" then some (some [])
   else some (some (s.toList.map (· == '1')))
 
+/-- A box given as a full matrix (rows = box vectors) is modelled only when it is a signed permutation
+of an orthorhombic box: it spans the same lattice as the axis-aligned box with the per-axis lengths,
+so the *sets* returned by `atoms`/`adj` are the same (`C14_periodic_exact`).  `none` = not such a matrix. -/
+def permBox (S : Nat) (m : List Int) : Option V3 :=
+  match m with
+  | [a, b, c, d, e, f, g, h, i] =>
+    let rowsOk := [[a, b, c], [d, e, f], [g, h, i]].all fun r => (r.filter (· ≠ 0)).length == 1
+    let colsOk := [[a, d, g], [b, e, h], [c, f, i]].all fun r => (r.filter (· ≠ 0)).length == 1
+    if rowsOk && colsOk then
+      some ⟨q S (a.natAbs + d.natAbs + g.natAbs : Nat), q S (b.natAbs + e.natAbs + h.natAbs : Nat),
+            q S (c.natAbs + f.natAbs + i.natAbs : Nat)⟩
+    else none
+  | _ => none
+
+/-- `some none`: not periodic; `some (some b)`: box; `none`: malformed; a non-permutation matrix gives lengths 0 → `unmodelled`. -/
 def parseBox (S : Nat) (s : String) : Option (Option V3) :=
   if s == "-" then some none else
   match parseInts s with
   | some [a, b, c] => some (some ⟨q S a, q S b, q S c⟩)
+  | some m => if m.length == 9 then some (some ((permBox S m).getD ⟨0, 0, 0⟩)) else none
   | _ => none
 
 def step (st : St) (line : String) : St × String :=
